@@ -262,8 +262,12 @@ def build_py_machine(scn: Dict[str, Any]):
     if getattr(pe.time, "__name__", "") == "time":
         pe.time = _FakeTime  # hygiene: start_time only; behaviour never reads the clock
     kb = scn.get("kb") or {}
-    emu = PCE500Emulator(save_lcd_on_exit=False, perfetto_trace=False,
-                         keyboard_columns_active_high=bool(kb.get("active_high", True)))
+    trace_kw = {"perfetto_trace": False}
+    if scn.get("trace"):
+        # tracing switched on, output into the scratch directory (the trace itself is not read)
+        trace_kw = {"perfetto_trace": True,
+                    "trace_path": os.path.join(scratch_dir(), f"trace-{os.getpid()}.perfetto-trace")}
+    emu = PCE500Emulator(save_lcd_on_exit=False, keyboard_columns_active_high=bool(kb.get("active_high", True)), **trace_kw)
     rom = bytearray(ROM_SIZE)
     rom[ROM_SIZE - 6:] = bytes(scn["prog"]["rom_tail"])
     emu.load_rom(bytes(rom))
@@ -365,8 +369,12 @@ def build_py_fresh(scn: Dict[str, Any]):
     user restarting the emulator has) — everything else must come from the bundle."""
     from pce500.emulator import PCE500Emulator
     kb = scn.get("kb") or {}
-    emu = PCE500Emulator(save_lcd_on_exit=False, perfetto_trace=False,
-                         keyboard_columns_active_high=bool(kb.get("active_high", True)))
+    trace_kw = {"perfetto_trace": False}
+    if scn.get("trace"):
+        # tracing switched on, output into the scratch directory (the trace itself is not read)
+        trace_kw = {"perfetto_trace": True,
+                    "trace_path": os.path.join(scratch_dir(), f"trace-{os.getpid()}.perfetto-trace")}
+    emu = PCE500Emulator(save_lcd_on_exit=False, keyboard_columns_active_high=bool(kb.get("active_high", True)), **trace_kw)
     rom = bytearray(ROM_SIZE)
     rom[ROM_SIZE - 6:] = bytes(scn["prog"]["rom_tail"])
     emu.load_rom(bytes(rom))
